@@ -190,8 +190,17 @@ def apply_history(history, variant):
         except Exception as e:
             out.append(("C10:op:exception:%s:%s" % (op, type(e).__name__), "history %r step %d raised %r" % (history, step, e)))
             return out, None
-    out += observe(problem, db, ref, "history %r variant %s" % (history, variant))
-    rows = read_rows(db)
+    try:
+        out += observe(problem, db, ref, "history %r variant %s" % (history, variant))
+        rows = read_rows(db)
+    except sqlite3.Error as e:
+        out.append(("C10:store-not-readable-after-sync:%s" % type(e).__name__,
+                    "after history %r (variant %s) a second connection cannot read what was synchronised: %r" % (history, variant, e)))
+        try:
+            store.destroy()
+        except Exception:
+            pass
+        return out, None
     canon = (tuple(sorted((rid, js) for rid, js in rows)), tuple(counts), tuple(pcounts))
     try:
         store.destroy()
